@@ -131,16 +131,14 @@ example : (tableCfg Gen.sharedWrites).cache ≠ [] ∧ (tableCfg Gen.sharedWrite
 
 /-! ## C. the executable case model used by the correspondence run
 
-Full-strength statement (does NOT hold — `witness_shared_default` below):
-    `outcome_clean : ∀ c : CaseM, outcome c = specOutcome`
-What is proved: the same under the exclusion `Excl c = false`, the disjunction of
-  `ExclSharedDefault` (finding F-C15-1, class `SharedObjectDefault`) and
-  `ExclTypeInfo`      (finding F-C15-2, class `TypeInfoIdentity`). -/
+Full strength (the exclusions `SharedObjectDefault` / `TypeInfoIdentity` of findings F-C15-1 / F-C15-2 are gone:
+both were repaired in the library, commits afcfd61 and 9118e72, and the model follows the repaired code). -/
 
-/-- Outside the exclusion the model of EVERY case — any operations, any number of goroutines, any
-    interleaving seed — shows no race, no verdict that differs from the solo run, no write to the document. -/
-theorem outcome_clean_partial (c : CaseM) (hx : Excl c = false) : outcome c = specOutcome := by
-  have hc := caseTrace_clean c hx
+/-- The model of EVERY case — any operations (object-valued defaults and self-referential Go types included),
+    any number of goroutines, any interleaving seed — shows no race, no verdict that differs from the solo
+    run, no write to the document. -/
+theorem outcome_clean (c : CaseM) : outcome c = specOutcome := by
+  have hc := caseTrace_clean c
   have hl := sigma0_lazy c
   have hr : raceInB (events sigma0 (caseTrace c)) = false := by
     cases h : raceInB (events sigma0 (caseTrace c)) with
@@ -162,55 +160,50 @@ theorem outcome_clean_partial (c : CaseM) (hx : Excl c = false) : outcome c = sp
     simp [document_untouched (caseCfg c) sigma0 (caseTrace c) hc hl d hn]
   simp [outcome, outcomeOf, specOutcome, hr, hd, hdoc]
 
-/-- F-C15-1 witness: two concurrent validations with default injection against a schema whose property
-    default is an object that itself receives a nested default — the model races and writes the document. -/
-def witnessCase : CaseM :=
-  { ops := [{ kind := .vreq, defaultsOn := true, sharedDefault := true }], g := 2, per := 1, sched := 1 }
+/-! Regression theorems: the footprints the two repaired defects had (kept as traces of the machine; the
+    corpus replays their inputs on the library on every run). -/
 
-theorem witness_shared_default :
-    ExclSharedDefault witnessCase = true ∧ outcome witnessCase = ⟨true, false, true⟩ ∧
-    outcome witnessCase ≠ specOutcome := by
+/-- F-C15-1 as it was (`value[propName] = dflt`, then nested defaults injected into that shared object): a
+    nil-guarded plain write to a document cell that starts empty — two validations race and the document
+    changes. The repaired footprint (`read dfltCell`, see `opActs`) is covered by `outcome_clean`. -/
+theorem regression_shared_default :
+    outcomeOf 2 [(0, .read docCell), (0, .lazyInit dfltCell 5), (1, .read docCell), (1, .lazyInit dfltCell 5)]
+      = ⟨true, false, true⟩ := by
   decide
 
-/-- F-C15-2 witness: two goroutines generate the schema of a self-referential Go type for the first time.
-    Each publishes its own type descriptor unconditionally; the one that looks the type up again (cycle
-    detection compares descriptor pointers) may find the other's — no data race, but a result that differs
-    from the solo run. -/
-def witnessTypeInfo : CaseM :=
-  { ops := [{ kind := .gen, genType := 3, recursive := true }], g := 2, per := 1, sched := 9 }
-
-theorem witness_type_info :
-    ExclTypeInfo witnessTypeInfo = true ∧ outcome witnessTypeInfo = ⟨false, true, false⟩ ∧
-    outcome witnessTypeInfo ≠ specOutcome := by
+/-- F-C15-2 as it was (`typeInfos[t] = typeInfo` unconditionally, cycle detection by descriptor pointer): each
+    first user stores its own descriptor and reads back whatever is there — no data race, but thread 0's
+    observation differs from its solo run when thread 1 stores in between … -/
+theorem regression_type_info :
+    outcomeOf 2 [(0, .syncStore (typeCell 3) 1000), (1, .syncStore (typeCell 3) 1001),
+                 (0, .syncRead (typeCell 3)), (1, .syncRead (typeCell 3))] = ⟨false, true, false⟩ := by
   decide
 
-/-- … and it is a matter of schedule: another interleaving of the same two calls is clean -/
-theorem witness_type_info_schedule_dependent :
-    outcome { witnessTypeInfo with sched := 10 } = specOutcome := by
+/-- … and not when it does not: the defect was schedule-dependent. -/
+theorem regression_type_info_schedule_dependent :
+    outcomeOf 2 [(0, .syncStore (typeCell 3) 1000), (0, .syncRead (typeCell 3)),
+                 (1, .syncStore (typeCell 3) 1001), (1, .syncRead (typeCell 3))] = specOutcome := by
   decide
 
-/-- inside the classes the recorded upper bound covers what the witnesses show -/
-example : mayOutcome witnessCase = ⟨true, true, true⟩ ∧ mayOutcome witnessTypeInfo = ⟨false, true, false⟩ := by
-  decide
+/-- the repaired `getTypeInfo` on the same schedule: first published descriptor wins, modelled as a fill -/
+example : outcome { ops := [{ kind := .gen, genType := 3, recursive := true }], g := 2, per := 1, sched := 9 }
+    = specOutcome := by decide
 
-/-- the exclusion is as small as the defect: a non-recursive type is outside it -/
-example : Excl { witnessTypeInfo with ops := [{ kind := .gen, genType := 3 }] } = false := by decide
+/-- the repaired default injection with two concurrent validations of the F-C15-1 schema -/
+example : outcome { ops := [{ kind := .vreq, defaultsOn := true, sharedDefault := true }], g := 2, per := 1, sched := 1 }
+    = specOutcome := by decide
 
-/-- the exclusion is as small as the defect: the same schema without default injection is clean -/
-example : Excl { witnessCase with ops := [{ kind := .vreq, defaultsOn := false, sharedDefault := true }] } = false := by
-  decide
-
-/-- non-vacuity of `outcome_clean_partial`: a case mixing all six operation kinds, with patterns, arrays,
-    scalar defaults and generation, on 4 goroutines, is outside the exclusion and its trace is not empty -/
+/-- non-vacuity of `outcome_clean`: a case mixing all six operation kinds, with patterns, arrays, an object-valued
+    default and generation for a recursive type, on 4 goroutines; its trace is not empty -/
 def busyCase : CaseM :=
   { ops := [ { kind := .frg }, { kind := .frl },
-             { kind := .vreq, patterns := [0, 1], arrays := true, defaultsOn := true },
+             { kind := .vreq, patterns := [0, 1], arrays := true, defaultsOn := true, sharedDefault := true },
              { kind := .vresp, patterns := [1], arrays := true },
              { kind := .visit, patterns := [2], defaultsOn := true },
-             { kind := .gen, genType := 3 } ],
+             { kind := .gen, genType := 3, recursive := true } ],
     g := 4, per := 2, sched := 7 }
 
-example : Excl busyCase = false ∧ (caseTrace busyCase).length = 26 ∧ outcome busyCase = specOutcome := by
+example : (caseTrace busyCase).length = 28 ∧ (outcomeOf 4 (caseTrace busyCase)).race = false := by
   decide
 
 end KinModel.Conc
